@@ -5,6 +5,7 @@
 ** Parameters: mode=bfs|ladder (ladder: maxn=N, see "ladder" below)
 **             alpha=N (alphabet {a,b,c..} size 2..4)   maxlen=L (content bound)
 **             ulen=K (operand strings: every string of length <= K, default 2)
+**             hashop=1 ("light" mode: hash(s) is an operation, not a query of the state oracle)
 **             prop=C16|C12    depth=N (0 = fixpoint)
 **
 ** State: the content of the String (plus, under ASan, the exact size of its allocation,
@@ -27,6 +28,14 @@ static int S_managed;
 
 static int A = 2, L = 5, UL = 2;
 static int propC12;
+/* "light" mode (hashop=1): hash(s) is an explicit operation of the alphabet instead of a query of the
+** state oracle, so that hash ; edit ; hash is a history of its own.  The state key then carries the
+** length the string had when its hash was last asked (hq, -1 = not asked in this history): whatever
+** the implementation remembers from a hash() call survives the edits that follow. */
+static int hashop;
+static int hq = -1;
+static char hq_text[64];
+static var SENT;              /* another String, hashed at the start of every execution */
 
 static char mdl[REFCAP];      /* the abstract string */
 
@@ -90,6 +99,9 @@ static void reset(void) {
   S_managed = 0;
   mdl[0] = 0;
   lastkind = "init"; vf.phase = "string/init";
+  /* every execution starts from the same "last String hashed": not this one */
+  if (SENT) { volatile uint64_t hs = hash(SENT); (void)hs; }
+  hq = -1; hq_text[0] = 0;
 }
 
 static void cleanup(void) {
@@ -114,6 +126,7 @@ static size_t canon(char* buf, size_t cap) {
   /* under ASan malloc_usable_size is exactly the requested size: a deterministic part of the concrete state */
   o += snprintf(buf + o, cap - o, " alloc=%zu", us);
 #endif
+  if (hashop) o += snprintf(buf + o, cap - o, " hash-last-asked-at-len=%d", hq);
   return o;
 }
 
@@ -143,13 +156,20 @@ static int check(void) {
   }
   if (l != rl) { vf_violation(LB("len"), NULL, "len=%zu, strlen of the abstract string \"%s\" is %zu", (size_t)l, mdl, rl); return 1; }
 
-  /* hash: fresh stack String of the same content, and independent MurmurHash64A of the bytes */
-  uint64_t h = hash(S);
-  uint64_t hf = hash($S(mdl));
-  uint64_t hm = murmur64a(mdl, rl, 0xCe110);
-  if (h != hf) { vf_violation(LB("hash-differs-from-fresh"), NULL, "hash(s)=%" PRIx64 " but hash($S(\"%s\"))=%" PRIx64, h, mdl, hf); return 1; }
-  if (h != hm) { vf_violation(LB("hash-not-murmur"), NULL, "hash(s)=%" PRIx64 " but MurmurHash64A(\"%s\", seed 0xCe110)=%" PRIx64, h, mdl, hm); return 1; }
-  vf.evaluations++;
+  /* hash: the reference never goes through String_Hash - an independent MurmurHash64A of the model bytes
+     and the library's hash_data over the model bytes; only afterwards a fresh stack String of the same
+     content is hashed too.  In light mode hash is an operation of the alphabet and nothing here asks for a hash. */
+  uint64_t h = 0;
+  if (!hashop) {
+    h = hash(S);
+    uint64_t hm = murmur64a(mdl, rl, 0xCe110);
+    uint64_t hd = hash_data(mdl, rl);
+    if (h != hm) { vf_violation(LB("hash-not-murmur"), NULL, "hash(s)=%" PRIx64 " but MurmurHash64A(\"%s\", seed 0xCe110)=%" PRIx64, h, mdl, hm); return 1; }
+    if (h != hd) { vf_violation(LB("hash-not-hash_data"), NULL, "hash(s)=%" PRIx64 " but hash_data(\"%s\")=%" PRIx64, h, mdl, hd); return 1; }
+    uint64_t hf = hash($S(mdl));
+    if (h != hf) { vf_violation(LB("hash-differs-from-fresh"), NULL, "hash(s)=%" PRIx64 " but hash($S(\"%s\"))=%" PRIx64, h, mdl, hf); return 1; }
+    vf.evaluations++;
+  }
 
   /* cmp / eq / neq / gt / lt / ge / le against the whole universe, both orders */
   for (int i = 0; i < NUNI; i++) {
@@ -166,7 +186,7 @@ static int check(void) {
     if (g != (want > 0) || lt_ != (want < 0) || ge_ != (want >= 0) || le_ != (want <= 0)) {
       vf_violation(LB("order-predicates"), NULL, "gt/lt/ge/le(\"%s\",\"%s\") = %d/%d/%d/%d, strcmp gives sign %d", mdl, UNI[i], (int)g, (int)lt_, (int)ge_, (int)le_, want); return 1;
     }
-    if (want == 0 && hash(o) != h) { vf_violation(LB("hash-of-equal"), NULL, "eq strings hash differently"); return 1; }
+    if (!hashop && want == 0 && hash(o) != h) { vf_violation(LB("hash-of-equal"), NULL, "eq strings hash differently"); return 1; }
     vf.evaluations++;
   }
 
@@ -203,7 +223,7 @@ static int check(void) {
 **   then NMISC         copy-replace, assign-from-heap-equal, ... and the C12 failing operations
 */
 enum { M_COPY, M_ASSIGN_INTO_FRESH, M_ASSIGN_EQUAL_VALUE, M_CONCAT_EQUAL_VALUE, M_REM_EQUAL_VALUE,
-       M_ASSIGN_SELF, M_CONCAT_SELF, M_REM_SELF,
+       M_ASSIGN_SELF, M_CONCAT_SELF, M_REM_SELF, M_HASH,
        F_ASSIGN_NULL, F_CONCAT_NULL, F_APPEND_NULL, F_ASSIGN_INT, F_CONCAT_INT, F_APPEND_INT,
        F_REM_NULL, F_MEM_NULL, F_REM_INT, F_MEM_INT, F_GET, F_SET, F_PRINT_NOARGS,
        NMISC };
@@ -214,7 +234,7 @@ static int base_misc(void) { return base_print() + (L + 1) * NU; }
 static int nops_total(void) { return base_misc() + NMISC; }
 
 static const char* miscname[] = { "s=copy(s)", "s=assign(new String,s)", "assign(s, heap string of equal value)", "concat(s, heap string of equal value)",
-  "rem(s, string of equal value)", "assign(s,s)", "concat(s,s)", "rem(s,s)",
+  "rem(s, string of equal value)", "assign(s,s)", "concat(s,s)", "rem(s,s)", "hash(s)",
   "assign(s,NULL)", "concat(s,NULL)", "append(s,NULL)", "assign(s,Int)", "concat(s,Int)", "append(s,Int)",
   "rem(s,NULL)", "mem(s,NULL)", "rem(s,Int)", "mem(s,Int)", "get(s,0)", "set(s,len+1,\"a\")", "print_to(s,len,\"%s\") no argument" };
 
@@ -508,6 +528,28 @@ static int apply(int op) {
     if (m == M_CONCAT_EQUAL_VALUE) { char t[REFCAP]; strcpy(t, mdl); strcat(mdl, t); }
     if (m == M_REM_EQUAL_VALUE) mdl[0] = 0;
     return VF_OK;
+  case M_HASH: {
+    /* explicit query (light mode): compared with references that never call String_Hash */
+    if (!hashop) return VF_SKIP;
+    static char kind[96]; static char prev[64];
+    snprintf(prev, sizeof prev, "%s", lastkind);
+    if (strncmp(prev, "hash-after-", 11) == 0) memmove(prev, prev + 11, strlen(prev + 11) + 1);
+    snprintf(kind, sizeof kind, "hash-after-%s", prev);
+    setkind(kind);
+    volatile uint64_t h = 0;
+    e = VF_CATCH(h = hash(S));
+    if (e) { vf_violation(LB("raises"), NULL, "hash raised %s", vf_exc_name(e)); return VF_BAD; }
+    uint64_t hm = murmur64a(mdl, rl, 0xCe110), hd = hash_data(mdl, rl);
+    if (h != hm || h != hd) {
+      int stale = hq >= 0 && h == murmur64a(hq_text, strlen(hq_text), 0xCe110);
+      vf_violation(LB(stale ? "stale-hash-of-earlier-content" : "wrong-hash"), NULL,
+        "hash(s)=%" PRIx64 " for \"%s\"; MurmurHash64A / hash_data of these bytes is %" PRIx64 "%s%s%s", (uint64_t)h, mdl, hm,
+        stale ? " - it is the hash of \"" : "", stale ? hq_text : "", stale ? "\", the content when hash was last asked" : "");
+      return VF_BAD;
+    }
+    hq = (int)rl; snprintf(hq_text, sizeof hq_text, "%s", mdl);
+    vf.evaluations++;
+    return VF_OK; }
   case M_ASSIGN_SELF: case M_CONCAT_SELF: case M_REM_SELF: {
     /* the argument IS the target (aliasing); only explored with alias=1 */
     if (!alias) return VF_SKIP;
@@ -683,20 +725,30 @@ static int ladder_check(var s, const char* expect) {
     int got = cmp(s, $S(l_tmp));
     if ((want > 0) != (got > 0) || (want < 0) != (got < 0) || eq(s, $S(l_tmp))) { vf_violation(LL("cmp-last-char"), NULL, "cmp against a string differing in the last character: %d, strcmp %d", got, want); return 1; }
   }
+  /* first hash-related call after the operation is hash(s) itself; references do not go through String_Hash */
   uint64_t h = hash(s);
-  if (h != hash(fresh)) { vf_violation(LL("hash-differs-from-fresh"), NULL, "hash differs from that of a fresh String of the expected text"); return 1; }
   if (h != murmur64a(expect, el, 0xCe110)) { vf_violation(LL("hash-not-murmur"), NULL, "hash is not MurmurHash64A of the %zu expected bytes", el); return 1; }
+  if (h != hash_data(expect, el)) { vf_violation(LL("hash-not-hash_data"), NULL, "hash is not hash_data of the %zu expected bytes", el); return 1; }
+  if (h != hash(fresh)) { vf_violation(LL("hash-differs-from-fresh"), NULL, "hash differs from that of a fresh String of the expected text"); return 1; }
   if (!mem(s, fresh)) { vf_violation(LL("mem-self-value"), NULL, "mem(s, equal string) is false"); return 1; }
   if (!mem(s, $S(l_payload)) != !strstr(expect, l_payload)) { vf_violation(LL("mem"), NULL, "mem(s, payload) disagrees with strstr"); return 1; }
   snprintf(l_tmp, sizeof l_tmp, "%s!", l_payload);
   if (mem(s, $S(l_tmp))) { vf_violation(LL("mem-absent"), NULL, "mem(s, payload+\"!\") is true"); return 1; }
   if (el >= 2 && !mem(s, $S((char*)expect + el - 2))) { vf_violation(LL("mem-tail"), NULL, "mem(s, last two characters) is false"); return 1; }
+  /* leave this String as the last one hashed, so that the next edit follows a hash of the same object */
+  if (hash(s) != h) { vf_violation(LL("hash-unstable"), NULL, "two consecutive hash(s) calls differ"); return 1; }
   vf.evaluations++;
   return 0;
 }
 
 enum { LO_ASSIGN, LO_CONCAT, LO_APPEND, LO_PRINT_END, LO_PRINT_START, LO_RESIZE_SHRINK, LO_RESIZE_GROW, LO_REM, LO_REM_ABSENT, LO_COPY, LO_N };
 static const char* lo_name[] = { "assign", "concat", "append", "print_to-at-end", "print_to-at-start", "resize-shrink", "resize-grow", "rem", "rem-absent", "copy" };
+
+/* hash asked BEFORE the operation: hash ; edit ; hash is then part of every ladder case */
+static void prehash(var s, const char* init) {
+  uint64_t h = hash(s);
+  if (h != murmur64a(init, strlen(init), 0xCe110)) vf_violation(LL("hash-before-operation"), NULL, "hash of the initial %zu character string is not MurmurHash64A of its bytes", strlen(init));
+}
 
 static void ladder_one(int N, int P, int op) {
   l_N = N; l_opname = lo_name[op];
@@ -713,17 +765,17 @@ static void ladder_one(int N, int P, int op) {
   switch (op) {
   case LO_ASSIGN:
     snprintf(l_expect, sizeof l_expect, "%s%s", l_prefix, l_payload);
-    s = new_raw(String, $S("seed"));
+    s = new_raw(String, $S("seed")); prehash(s, "seed");
     e = VF_CATCH(assign(s, $S(l_expect)));
     break;
   case LO_CONCAT: case LO_APPEND:
     snprintf(l_expect, sizeof l_expect, "%s%s", l_prefix, l_payload);
-    s = new_raw(String, $S(l_prefix));
+    s = new_raw(String, $S(l_prefix)); prehash(s, l_prefix);
     if (op == LO_CONCAT) e = VF_CATCH(concat(s, $S(l_payload))); else e = VF_CATCH(append(s, $S(l_payload)));
     break;
   case LO_PRINT_END:
     snprintf(l_expect, sizeof l_expect, "%s%s", l_prefix, l_payload);
-    s = new_raw(String, $S(l_prefix));
+    s = new_raw(String, $S(l_prefix)); prehash(s, l_prefix);
     e = VF_CATCH(ret = print_to(s, P, "%s", $S(l_payload)));
     if (!e && ret != P + N) { vf_violation(LL("returned-position"), NULL, "print_to(s, %d, \"%%s\", payload) returned %d, expected %d", P, (int)ret, P + N); bad = 1; }
     if (!e && !bad) bad = ladder_check(s, l_expect);
@@ -736,20 +788,20 @@ static void ladder_one(int N, int P, int op) {
   case LO_PRINT_START:
     if (P == 0) return;
     snprintf(l_expect, sizeof l_expect, "%s", l_payload);
-    s = new_raw(String, $S(l_prefix));
+    s = new_raw(String, $S(l_prefix)); prehash(s, l_prefix);
     e = VF_CATCH(ret = print_to(s, 0, "%s", $S(l_payload)));
     if (!e && ret != N) { vf_violation(LL("returned-position"), NULL, "print_to(s, 0, \"%%s\", payload) over a %d character string returned %d, expected %d", P, (int)ret, N); bad = 1; }
     break;
   case LO_RESIZE_SHRINK:
     snprintf(l_expect, sizeof l_expect, "%s%s%s", l_prefix, l_payload, l_suffix);
-    s = new_raw(String, $S(l_expect));
+    s = new_raw(String, $S(l_expect)); prehash(s, l_expect);
     e = VF_CATCH(resize(s, (size_t)N));
     l_expect[N] = 0;                            /* N <= P+N+3 always: truncation to the first N characters */
     break;
   case LO_RESIZE_GROW: {
     if (N <= P) return;
     snprintf(l_expect, sizeof l_expect, "%s", l_prefix);
-    s = new_raw(String, $S(l_prefix));
+    s = new_raw(String, $S(l_prefix)); prehash(s, l_prefix);
     e = VF_CATCH(resize(s, (size_t)N));
     if (!e) {
       char* v = ((struct String*)s)->val; size_t us = malloc_usable_size(v);
@@ -762,12 +814,12 @@ static void ladder_one(int N, int P, int op) {
   case LO_REM:
     snprintf(l_tmp, sizeof l_tmp, "%s%s%s", l_prefix, l_payload, l_suffix);
     snprintf(l_expect, sizeof l_expect, "%s%s", l_prefix, l_suffix);
-    s = new_raw(String, $S(l_tmp));
+    s = new_raw(String, $S(l_tmp)); prehash(s, l_tmp);
     e = VF_CATCH(rem(s, $S(l_payload)));
     break;
   case LO_REM_ABSENT: {
     snprintf(l_expect, sizeof l_expect, "%s%s%s", l_prefix, l_payload, l_suffix);
-    s = new_raw(String, $S(l_expect));
+    s = new_raw(String, $S(l_expect)); prehash(s, l_expect);
     static char absent[LCAP]; snprintf(absent, sizeof absent, "%s!", l_payload);
     e = VF_CATCH(rem(s, $S(absent)));
     if (e && e != ValueError && e != KeyError) { vf_violation(LL("wrong-exception"), NULL, "rem of an absent substring raised %s", vf_exc_name(e)); bad = 1; }
@@ -775,7 +827,7 @@ static void ladder_one(int N, int P, int op) {
     break; }
   case LO_COPY:
     snprintf(l_expect, sizeof l_expect, "%s%s", l_prefix, l_payload);
-    s = new_raw(String, $S(l_expect));
+    s = new_raw(String, $S(l_expect)); prehash(s, l_expect);
     e = VF_CATCH(R[1] = copy(s));
     if (!e) {
       if (((struct String*)R[1])->val == ((struct String*)s)->val) { vf_violation(LL("copy-shares-buffer"), NULL, "copy shares the original's buffer"); bad = 1; }
@@ -834,6 +886,8 @@ int main(int argc, char** argv) {
   if (UL > 3) UL = 3;
   const char* prop = vf_param("prop", "C16");
   propC12 = strcmp(prop, "C12") == 0;
+  hashop = (int)vf_param_i("hashop", 0);
+  SENT = new_raw(String, $S("~another string, never equal in length to the explored ones~"));
   do_probe = (int)vf_param_i("probe", 1);
   alias = (int)vf_param_i("alias", 0);
 
@@ -849,7 +903,7 @@ int main(int argc, char** argv) {
   }
 
   static char dname[96];
-  snprintf(dname, sizeof dname, "string[alpha=%d,maxlen=%d,ulen=%d,%s]", A, L, UL, prop);
+  snprintf(dname, sizeof dname, "string[alpha=%d,maxlen=%d,ulen=%d,%s%s]", A, L, UL, prop, hashop ? ",hashop" : "");
   struct vf_domain d = { dname, nops_total(), reset, cleanup, apply, check, canon, opname, nontrivial,
                          (size_t)vf_param_i("depth", 0), (size_t)vf_param_i("max_states", 0) };
 
